@@ -88,7 +88,7 @@ def gen_cases(tier, seed):
     for b in range((len(tab) + per_t - 1) // per_t):
         cases.append({"seed": seed, "kind": "table", "block": b, "lo": b * per_t, "hi": min(len(tab), (b + 1) * per_t)})
     cases.append({"seed": seed, "kind": "classify", "block": 0})
-    n = 16000 if tier == "quick" else 800000
+    n = 16000 if tier == "quick" else 400000
     per = 250 if tier == "quick" else 5000
     for b in range(n // per):
         cases.append({"seed": seed, "kind": "random", "block": b, "count": per})
@@ -152,7 +152,7 @@ def classify_inputs(counters):
         other = [[3, ver, [TS[0]]]] if uid != ver else []
         out.append({"proposed": [[1, uid, [TS[2], TS[0]]]] + other, "supported": [], "roles": {}, "mode": "unrestricted"})
         out.append({"proposed": other + [[5, uid, [TS[2], TS[0], TS[1]]]],
-                    "supported": [[uid, [TS[1], TS[0]], True, True], [ver, [TS[0]], None, None]],
+                    "supported": [[uid, [TS[1], TS[0]], True, True]] + ([[ver, [TS[0]], None, None]] if other else []),
                     "roles": {uid: [True, True]}, "mode": "unrestricted"})
     return out
 
